@@ -365,14 +365,11 @@ func runTrace(in []int64) []int64 {
 		}
 	}
 	out.desc = desc
-	if t.policy == 1 && placed > 0 && t.annot == 0 {
-		out.sig = "C14-D8-running-pods-ignored-when-allocated-hypernode-is-recovered"
-	}
+	// findings D8 (recovery skipped sub-jobs without own topology) and D10 (stale recorder
+	// decisions) are repaired in /repo: their classes carry no signature any more
+	_ = placed
 	if os.Getenv("VERIF_C14_DEBUG") != "" {
 		fmt.Fprintln(os.Stderr, "TRACE", desc, out.groups)
-	}
-	if t.policy == 2 {
-		out.sigRec = "C14-D10-subjob-allocated-hypernode-above-its-tier-limit"
 	}
 	lastTrace = out
 	return obs
